@@ -193,7 +193,13 @@ def field_error(fv, z, prof, mx, my, nxy, domain, levels, modes=None):
     want_p = np.zeros((len(levels), ny, nx), dtype=complex)
     want_q = np.zeros((len(levels), ny, nx), dtype=complex)
     growth, memo = 0.0, {}
+    # a mode request below the grid keeps the wavenumbers of fftfreq(request): -request/2 is kept, +request/2 is not (its
+    # partner is cut, so that column stands for the negative wavenumber alone)
+    keep_x = set(np.fft.fftfreq(min((modes or (nx, ny))[0], nx), d=1.0 / min((modes or (nx, ny))[0], nx)).round().astype(int).tolist())
+    keep_y = set(np.fft.fftfreq(min((modes or (nx, ny))[1], ny), d=1.0 / min((modes or (nx, ny))[1], ny)).round().astype(int).tolist())
     for jy, jx in np.argwhere(np.abs(coef) > 1e-12):
+        if int(round(fx[jx])) not in keep_x or int(round(fy[jy])) not in keep_y:
+            continue
         kx, ky = 2 * np.pi * fx[jx] / domain[0], 2 * np.pi * fy[jy] / domain[1]
         key = (round(float(kx), 12), round(float(ky), 12))
         if (-key[0], -key[1]) in memo:               # the response of the mirrored wavenumber pair is the complex conjugate
@@ -345,6 +351,37 @@ def convergence(chk, t, rng):
                                   % (comp[0], comp[1], nxy_o[0], nxy_o[1], fam, errs[0], errs[1]), {"kind": "convergence", "variant": "odd grid, clamped modes", "grid": list(nxy_o), "component": comp, "errors": errs},
                                   klass={"check": "convergence_ratio", "family": fam, "variant": "odd grid"})
     chk.extra["odd_grid_cases"] = nodd
+    # a mode request BELOW the grid: the component at the edge of the retained band (-request/2) has lost its partner and is
+    # solved with its own, negative, wavenumber
+    ntrunc = 0
+    for fam in ("log_neutral", "aniso_linear"):
+        f, z0, ztop = profile_family(fam)
+        for req, comp in (((6, 4), (3, 1)), ((6, 4), (1, 2)), ((6, 6), (-3, 2)), ((4, 6), (2, -1)), ((6, 4), (3, 2))):
+            errs = []
+            for nn in (24, 96):
+                z = grid_of("stretched", z0, ztop, nn)
+                prof = tuple(np.asarray(a, dtype=float) * np.ones_like(z) for a in f(z))
+                u, v, Kx, Ky, Kz = prof
+                kx, ky = 2 * np.pi * comp[0] / domain[0], 2 * np.pi * comp[1] / domain[1]
+                T = -(Kx * kx ** 2 + Ky * ky ** 2) - 1j * (u * kx + v * ky)
+                if nn == 24 and (np.abs(T[:-1]) * np.diff(z) ** 2 / Kz[:-1]).max() > 1.0:
+                    errs = None
+                    break
+                e, grow = field_error(f, z, prof, comp[0], comp[1], nxy, domain, [0, nn // 4, nn // 2], modes=req)
+                if grow > 18.0:
+                    errs = None
+                    break
+                errs.append(e)
+            if errs is None:
+                continue
+            ntrunc += 1
+            n += 1
+            chk.case(json.dumps(["truncated request", fam, req, comp]))
+            if errs[0] > 1e-9 and errs[1] > errs[0] / 2.5:
+                chk.violation("component (%d,%d) on an %d x %d grid with %d x %d modes requested (edge of the retained band), %s profiles: the error against the exact solution is %.3e with 24 layers and %.3e with 96: it does not shrink 2.5 times"
+                              % (comp[0], comp[1], nxy[0], nxy[1], req[0], req[1], fam, errs[0], errs[1]), {"kind": "convergence", "variant": "truncated request", "modes": list(req), "component": comp, "errors": errs},
+                              klass={"check": "convergence_ratio", "family": fam, "variant": "truncated request"})
+    chk.extra["truncated_request_cases"] = ntrunc
     # a WEAK component next to a strong one: the problem is linear, every retained component is solved whatever its amplitude
     from bldfm.solver import steady_state_transport_solver
     nweak = 0
